@@ -64,6 +64,16 @@ def likelihood_kernels(R, K):
             if not (close(float(K['combine_mu'](m_1, m_2, s1, s2)), float(np.asarray(cm).flatten()[0]), 1e-12)
                     and close(float(K['combine_s'](s1, s2)), float(np.asarray(cs).flatten()[0]), 1e-12)):
                 bad = bad or {'check': 'combine_mu/combine_s', 'mu': [m_1, m_2], 's': [s1, s2]}
+            # scale factor of one station: estimate_scale_mu_s against scale_estimator (errors up to 60%: the tail term matters there)
+            zx, zy = R.rng.choice([-1, 1]) * 10 ** R.rng.uniform(-1, 1), R.rng.choice([-1, 1]) * 10 ** R.rng.uniform(-1, 1)
+            ex, ey = 10 ** R.rng.uniform(-2, -0.2), 10 ** R.rng.uniform(-2, -0.2)
+            if abs(mux) > 1e-3 and abs(muy) > 1e-3:
+                pm, ps = pr.scale_estimator(np.array([[abs(zx / zy)]]), np.array([[abs(mux)]]), np.array([[abs(muy)]]), np.array([[ex]]), np.array([[ey]]))
+                km, ks = K['estimate_scale_mu_s'](zx, zy, mux, muy, ex, ey)
+                pm, ps = float(np.asarray(pm).flatten()[0]), float(np.asarray(ps).flatten()[0])
+                if not (close(float(km), pm, 1e-9) and close(float(ks), ps, 1e-7)):
+                    bad = bad or {'check': 'estimate_scale_mu_s', 'x': zx, 'y': zy, 'mu_x': mux, 'mu_y': muy, 'errors': [ex, ey],
+                                  'kernel': [float(km), float(ks)], 'python': [pm, ps]}
     return bad
 
 
